@@ -29,6 +29,7 @@ type Target interface {
 	dependencies() []string
 	generates() []string
 	info() targetInfo
+	setInfo(info targetInfo)
 	upToDate() (bool, string, diff.ValueDiff, error)
 	evaluate() (data string, changed bool, err error)
 }
@@ -49,6 +50,17 @@ func (t *runTarget) stamp() string {
 		return t.data
 	}
 	return fmt.Sprintf("%s#%d", t.data, t.runs)
+}
+
+// save persists the target's record and remembers it in the loaded target, so that a later
+// run on the same loaded project (the REPL's run, for instance) starts from what this run
+// recorded rather than from what was on disk when the project was loaded.
+func (t *runTarget) save(info targetInfo) error {
+	if err := t.target.Project().saveTargetInfo(t.target.Label(), info); err != nil {
+		return err
+	}
+	t.target.setInfo(info)
+	return nil
 }
 
 func (t *runTarget) Evaluate(engine runner.Engine) error {
@@ -124,7 +136,7 @@ func (t *runTarget) Evaluate(engine runner.Engine) error {
 	// did not complete: its environment is unchanged and its generated files may already
 	// exist, possibly half-written.
 	info.Rerun = true
-	if err := proj.saveTargetInfo(label, info); err != nil {
+	if err := t.save(info); err != nil {
 		proj.events.TargetFailed(label, err)
 		return err
 	}
@@ -135,7 +147,7 @@ func (t *runTarget) Evaluate(engine runner.Engine) error {
 		proj.events.TargetFailed(label, err)
 
 		// If the target fails, record that it must be re-run on the next build.
-		proj.saveTargetInfo(label, targetInfo{
+		t.save(targetInfo{
 			Doc:          t.target.Doc(),
 			Dependencies: depData,
 			Rerun:        true,
@@ -150,7 +162,7 @@ func (t *runTarget) Evaluate(engine runner.Engine) error {
 		t.data = data
 	}
 	t.runs++
-	err = proj.saveTargetInfo(label, targetInfo{
+	err = t.save(targetInfo{
 		Doc:          t.target.Doc(),
 		Dependencies: depData,
 		Data:         t.data,
